@@ -144,7 +144,7 @@ class SubstratePathElem:
         """
 
         # Integer
-        if self.m_elem.isnumeric():
+        if self.m_elem.isdecimal():
             bit_len = int(self.m_elem).bit_length()
 
             # Find the correct scale encoder
